@@ -75,4 +75,22 @@ Section Codec.
             end
         end
     end.
+
+  (* A Package object is not a value: the lists it holds, the Hugr modules and the extensions in them
+     stay mutable (only the two attribute bindings of the dataclass are frozen).  Package._to_serial
+     (package.py:50-54) rebuilds the serial form from self.modules / self.extensions at every call and
+     keeps nothing between calls, so a history of operations on ONE object is a fold over the steps in
+     which each encoding sees the contents the object has at that moment. *)
+  Inductive step :=
+  | SEncode (c : config)                      (* package.to_bytes(c) *)
+  | SEncodeStr (c : config)                   (* package.to_str(c) *)
+  | SMutate (f : package -> package).         (* any change of the module list / a module / an extension *)
+  (* the outputs of the encodings of a history, each paired with the contents encoded *)
+  Fixpoint run_steps (p : package) (s : list step) : list (package * res bytes) :=
+    match s with
+    | [] => []
+    | SEncode c :: s => (p, make_envelope p c) :: run_steps p s
+    | SEncodeStr c :: s => (p, make_envelope_str p c) :: run_steps p s
+    | SMutate f :: s => run_steps (f p) s
+    end.
 End Codec.
